@@ -580,6 +580,29 @@ class Exec(ExecBase):
             st = st.hset(key, z3.Store(el, ref, inner))
             yield VList(base.elem, "seq", ref), st
             return
+        if isinstance(base, VStr) and sl.step is None:
+            n = z3.Length(base.term)
+
+            def sbound(e: ast.AST) -> Any:
+                outs = list(self.ev(e, st))
+                if len(outs) != 1:
+                    raise Unsupported("slice bound forks")
+                b = _i(self.narrow(outs[0][0], st))     # Python's rule: a negative bound counts from the end; both are clipped to [0, n]
+                return z3.If(b < 0, z3.If(n + b < 0, z3.IntVal(0), n + b), z3.If(n < b, n, b))
+            if sl.upper is None and sl.lower is not None and z3.is_app_of(base.term, z3.Z3_OP_SEQ_CONCAT):
+                # ("abc" ++ x)[k:] with a literal k <= 3: the literal's tail followed by x (same string, a term the solvers handle at once)
+                outs = list(self.ev(sl.lower, st))
+                kids = base.term.children()
+                if len(outs) == 1 and self.is_concrete(outs[0][0]) and z3.is_string_value(kids[0]):
+                    k_, lit = self.concrete(outs[0][0]), kids[0].as_string()
+                    if isinstance(k_, int) and 0 <= k_ <= len(lit) and "\\" not in lit:
+                        rest_ = kids[1] if len(kids) == 2 else z3.Concat(*kids[1:])
+                        yield VStr(rest_ if k_ == len(lit) else z3.Concat(z3.StringVal(lit[k_:]), rest_)), st
+                        return
+            slo = sbound(sl.lower) if sl.lower is not None else z3.IntVal(0)
+            shi = sbound(sl.upper) if sl.upper is not None else n
+            yield VStr(z3.SubString(base.term, slo, z3.If(shi - slo > 0, shi - slo, z3.IntVal(0)))), st
+            return
         raise Unsupported(f"slice of {base!r}")
 
     def ev_Attribute(self, node: ast.Attribute, st: State) -> Iterator[Tuple[V, State]]:
